@@ -261,7 +261,15 @@ func handleSINTERSTORE(params internal.HandlerFuncParams) ([]byte, error) {
 
 	for key, exists := range keyExists {
 		if !exists {
-			return []byte(":0\r\n"), err
+			// The intersection with a missing set is empty: the destination is replaced by that
+			// (empty) result, i.e. whatever it held before is removed.
+			destination := keys.WriteKeys[0]
+			if params.KeysExist(params.Context, []string{destination})[destination] {
+				if err = params.DeleteKey(params.Context, destination); err != nil {
+					return nil, err
+				}
+			}
+			return []byte(":0\r\n"), nil
 		}
 		set, ok := params.GetValues(params.Context, []string{key})[key].(*Set)
 		if !ok {
